@@ -2,6 +2,7 @@
 # Runs every registered check in the given tier, sequentially (each uses all cores). Prints a summary.
 cd "$(dirname "$0")"
 TIER=${1:-quick}
+export VERIF_ROOT=${VERIF_ROOT:-$(pwd)}
 ./build.sh || exit 2
 rc=0
 for P in $(./bin/chainsim list); do
